@@ -499,6 +499,17 @@ class Interp:
         """(setup, before, yielded expression, after) of a generator `setup; while True: before; yield value; after`, else None: the k-th
         next() runs (setup; before) for k = 1 and (after; before) afterwards, and returns the value"""
         body = [s_ for s_ in node.body if not (isinstance(s_, ast.Expr) and isinstance(s_.value, ast.Constant))]
+        if (body and isinstance(body[-1], ast.For) and not body[-1].orelse and isinstance(body[-1].iter, ast.Call) and ast.unparse(body[-1].iter.func).split(".")[-1] == "repeat"
+                and len(body[-1].iter.args) == 1 and not body[-1].iter.keywords):
+            # `for x in itertools.repeat(v): ...` is `tmp = v; while True: x = tmp; ...` (v is evaluated once, when the generator starts)
+            f_ = body[-1]
+            hold = ast.Assign(targets=[ast.Name(id="repeat_value_", ctx=ast.Store())], value=f_.iter.args[0])
+            bind = ast.Assign(targets=[f_.target], value=ast.Name(id="repeat_value_", ctx=ast.Load()))
+            loop_ = ast.While(test=ast.Constant(value=True), body=[bind] + list(f_.body), orelse=[])
+            for n_ in (hold, bind, loop_):
+                ast.copy_location(n_, f_)
+                ast.fix_missing_locations(n_)
+            body = body[:-1] + [hold, loop_]
         if not body or not isinstance(body[-1], ast.While):
             return None
         loop = body[-1]
@@ -1531,7 +1542,10 @@ class Interp:
         out = []
         for x in e.elts:
             if isinstance(x, ast.Starred):
-                out.extend(self.eval(x.value, env))
+                v_ = self.strip_iter(self.eval(x.value, env))
+                if not isinstance(v_, (list, tuple)):
+                    raise Unsupported("a sequence of unknown length unpacked into a tuple / list display")
+                out.extend(v_)
             else:
                 out.append(self.eval(x, env))
         return tuple(out)
@@ -2064,6 +2078,21 @@ class Interp:
                 if all(self.truth(self.eval(c, sub), e, sub) for c in g.ifs):
                     out.append(self.eval(e.elt, sub))
             return out
+        if isinstance(it, Obj) and it.cls == "generator":
+            if not isinstance(e, ast.ListComp):
+                raise Unsupported("a generator object consumed by a generator expression / set / dict comprehension")
+            # [elt for t in gen if c]: the loop that steps the generator
+            sub["__comp_out__"] = []
+            sub["comp_iter_"] = it
+            app = ast.Expr(value=ast.Call(func=ast.Attribute(value=ast.Name(id="__comp_out__", ctx=ast.Load()), attr="append", ctx=ast.Load()), args=[e.elt], keywords=[]))
+            inner = [app]
+            for c_ in reversed(g.ifs):
+                inner = [ast.If(test=c_, body=inner, orelse=[])]
+            loop = ast.For(target=g.target, iter=ast.Name(id="comp_iter_", ctx=ast.Load()), orelse=[], body=inner)
+            ast.copy_location(loop, e)
+            ast.fix_missing_locations(loop)
+            self.exec_stmt(loop, sub)
+            return sub["__comp_out__"]
         if isinstance(it, Op) and it.op == "range" and isinstance(e, ast.ListComp) and not g.ifs:
             # a list comprehension over a range of unknown length is the loop `out = []; for t in range(..): out.append(elt)`: run it through
             # the loop machinery, so that state carried from one element to the next (a forward hook storing the previous output) is carried
